@@ -336,3 +336,36 @@ _extend("C17", "delayed parts with delay type 'none' (also as the only delayed p
 _extend("C18", "general rates that change sign (lumped reversible laws).")
 _extend("C19", "a partition is accepted only under a division mechanism that can have fired for the mother's age and volume "
                "(a noise-free rule only once its threshold is reached); half of the two-mechanism models pair a rule with an event.")
+
+
+_extend("C01", "one generated model in four builds all its mass-action reactions from one shared parameter-dictionary object "
+               "(named rate constant), as user code that re-uses a dict does.")
+_extend("C02", "the parsed text is compiled a second time for the reversed declaration order of its species and parameters and "
+               "evaluated again; exponents written as ratios of integer literals (X^(1/2)); a root of exactly zero is outside "
+               "the finite domain (algebraically equivalent factored forms are undefined there).")
+_extend("C03", "interfaces are prepared 1..3 times before the derivative is read; a model refused for a missing value must be "
+               "refused again on the second initialisation, on interface creation and on simulation.")
+_extend("C04", "surfaces 'simulator_batch' (another model prepared and simulated in between) and 'interface_reused' (one interface "
+               "used for a run with tripled parameters - on a two-point grid for the pulse family, which takes the integrator's "
+               "retry path - then, after Model.set_params restored the values, for the measured run); one case in four is "
+               "preceded by a call on another model with its own loose atol / rtol.")
+_extend("C05", "one case in four stretches the time unit by 1e6, 1e13 or 1e-6 (all rate constants divided, grid multiplied): the "
+               "reference law is unchanged.")
+_extend("C06", "reported grids may start 3 or 8 steps after the simulation start (which makes the delay queue wrap); conservation "
+               "laws are compared with the initial state's value; reactant lists name repeated species in any order.")
+_extend("C07", "the flag is also given as numpy booleans (576 combinations); after every returned result the same Model / interface "
+               "is simulated once more (plain deterministic call) and that first row must still be the initial condition; the "
+               "rule chain may contain a parameter-assigning rule that reads the volume.")
+_extend("C09", "models whose reactions run out part-way through the run; dt counters written as an additive rule whose target is one "
+               "of its summands; a plain repeated rule (short 2-tuple form) declared after the scheduled / dt / ODE rule and "
+               "reading reaction species must hold on every row.")
+_extend("C10", "delay draws of two delayed reactions with different distributions interleaved on the shared generator, each stream "
+               "tested against its own law.")
+_extend("C11", "the constant-volume law also through SafeModelCSimInterface.")
+_extend("C13", "a species may be named by two speciesReference entries of one side (stoichiometries add).")
+_extend("C16", "one case in three evaluates the interface first under another prior specification for the same parameter names "
+               "(then assigns or updates the dictionary in place).")
+_extend("C18", "one case in two analyses the same model object first at other parameter values (Jacobian or sensitivity), restores "
+               "the values with set_params, and only then makes the measured call.")
+_extend("C19", "grids with non-dyadic steps (0.1, 0.05, 0.3) and numpy.linspace grids; on grids that are not exactly representable "
+               "the growth recurrence allows 0..2 steps between rows (the simulator's own clock drifts by an ulp).")
